@@ -551,8 +551,21 @@ int main(int argc, char **argv, char **envp)
         _exit((int) c.a);
       case PUP_RAISE: {
         struct rlimit rl = { 0, 0 };
-        setrlimit(RLIMIT_CORE, &rl);
-        prctl(PR_SET_DUMPABLE, 0);
+        if (c.b == 1) {
+          // die with a (truncated) core file in the per-case control directory:
+          // the wait status then carries the "core dumped" flag
+          struct rlimit cur;
+          if (getrlimit(RLIMIT_CORE, &cur) == 0) {
+            rl.rlim_max = cur.rlim_max;
+            rl.rlim_cur = cur.rlim_max < 4096 ? cur.rlim_max : 4096;
+          }
+          setrlimit(RLIMIT_CORE, &rl);
+          prctl(PR_SET_DUMPABLE, 1);
+          if (g_ctl[0]) (void) !chdir(g_ctl);
+        } else {
+          setrlimit(RLIMIT_CORE, &rl);
+          prctl(PR_SET_DUMPABLE, 0);
+        }
         signal((int) c.a, SIG_DFL);
         sigset_t s;
         sigemptyset(&s);
